@@ -784,4 +784,353 @@ theorem SeqHOL.step_limit (s : SeqHOL) (a : SeqStep) (s' : SeqHOL) (hs : s.step 
     | contradiction
     | (simp only [Option.some.injEq] at hs; subst hs; rfl)
 
+/-! ### `SeqHOL` is the sequential-issue restriction of `HOL` -/
+
+theorem rpc_count_set (r : RpcPc) :
+    ∀ (l : List RpcPc) (i : Nat) (a b : RpcPc), l[i]? = some a →
+      (l.set i b).count r + (if a = r then 1 else 0) = l.count r + (if b = r then 1 else 0) := by
+  intro l
+  induction l with
+  | nil => intro i a b h; simp at h
+  | cons x xs ih =>
+    intro i a b h
+    cases i with
+    | zero =>
+      simp only [List.getElem?_cons_zero, Option.some.injEq] at h
+      subst h
+      simp only [List.set_cons_zero, List.count_cons, beq_iff_eq]
+      split <;> split <;> omega
+    | succ j =>
+      simp only [List.getElem?_cons_succ] at h
+      have := ih j a b h
+      simp only [List.set_cons_succ, List.count_cons]
+      omega
+
+theorem rpc_get_set (l : List RpcPc) (i j : Nat) (b : RpcPc) (hij : i ≠ j) :
+    (l.set i b)[j]? = l[j]? := by
+  simp [hij]
+
+theorem rpc_get_set_self (l : List RpcPc) (i : Nat) (a b : RpcPc) (h : l[i]? = some a) :
+    (l.set i b)[i]? = some b := by
+  have hlt : i < l.length := by
+    rcases Nat.lt_or_ge i l.length with h' | h'
+    · exact h'
+    · rw [List.getElem?_eq_none h'] at h; cases h
+  simp [hlt]
+
+theorem rpc_lt_of_get {l : List RpcPc} {i : Nat} {a : RpcPc} (h : l[i]? = some a) : i < l.length := by
+  rcases Nat.lt_or_ge i l.length with h' | h'
+  · exact h'
+  · rw [List.getElem?_eq_none h'] at h; cases h
+
+theorem rpc_count_pos_of_get (r : RpcPc) (l : List RpcPc) (i : Nat) (h : l[i]? = some r) : 0 < l.count r :=
+  List.count_pos_iff.mpr (List.mem_of_getElem? h)
+
+theorem rpc_get_of_count_pos (r : RpcPc) (l : List RpcPc) (h : 0 < l.count r) : ∃ i : Nat, l[i]? = some r := by
+  have := List.count_pos_iff.mp h
+  obtain ⟨i, hi, he⟩ := List.getElem_of_mem this
+  exact ⟨i, by rw [List.getElem?_eq_getElem hi, he]⟩
+
+
+/-- what the state of the RPC in transit (`q.cur`) says about the `HOL` state; `c` is the index of
+that RPC (the number of RPCs that have received their whole input) -/
+def HolPhase (n c : Nat) (h : HOL) (q : SeqHOL) : Prop :=
+  match q.cur with
+  | .none => c + q.todo = n ∧ h.held = none ∧ h.wire = seqFrom c q.todo ∧ (c < n → h.st[c]? = some .fresh)
+  | .idHeld => c + 1 + q.todo = n ∧ h.held = some (.id c) ∧ h.wire = .req c :: seqFrom (c + 1) q.todo ∧
+      h.st[c]? = some .fresh
+  | .accWire => c + 1 + q.todo = n ∧ h.held = none ∧ h.wire = .req c :: seqFrom (c + 1) q.todo ∧
+      h.st[c]? = some .accepted
+  | .accHeld => c + 1 + q.todo = n ∧ h.held = some (.req c) ∧ h.wire = seqFrom (c + 1) q.todo ∧
+      h.st[c]? = some .accepted
+  | .waitWire => c + 1 + q.todo = n ∧ h.held = none ∧ h.wire = .req c :: seqFrom (c + 1) q.todo ∧
+      h.st[c]? = some .waitingReq
+  | .waitHeld => c + 1 + q.todo = n ∧ h.held = some (.req c) ∧ h.wire = seqFrom (c + 1) q.todo ∧
+      h.st[c]? = some .waitingReq
+
+/-- the abstraction relation between a state of `HOL` on the sequential wire of `n` requests and a
+state of `SeqHOL` -/
+def HolRel (n : Nat) (h : HOL) (q : SeqHOL) : Prop :=
+  ∃ c : Nat,
+    h.limit = q.limit ∧ h.sem = q.sem ∧ h.st.length = n ∧
+    (∀ k : Nat, k < c → h.st[k]? = some .running ∨ h.st[k]? = some .done) ∧
+    (∀ k : Nat, c < k → k < n → h.st[k]? = some .fresh) ∧
+    h.st.count .running = q.running ∧
+    q.sem = q.running + (if q.cur = .waitWire ∨ q.cur = .waitHeld then 1 else 0) ∧
+    HolPhase n c h q
+
+theorem holRel_init (limit n : Nat) :
+    HolRel n (HOL.init limit (seqWire n) n) { limit := limit, todo := n } := by
+  refine ⟨0, rfl, rfl, by simp [HOL.init], ?_, ?_, ?_, by simp, ?_⟩
+  · intro k hk; omega
+  · intro k _ hk; simp [HOL.init, hk]
+  · simp [HOL.init, List.count_replicate]
+  · simp [HolPhase, HOL.init, seqWire]
+    intro h0; simp [h0]
+
+
+/-- forward simulation: every step of `HOL` on the sequential wire is a step of `SeqHOL` -/
+theorem hol_sim (n : Nat) (h h' : HOL) (q : SeqHOL) (a : HOLStep) (hr : HolRel n h q)
+    (hs : h.step a = some h') : ∃ b q', q.step b = some q' ∧ HolRel n h' q' := by
+  obtain ⟨c, hlim, hsem, hlen, hpre, hpost, hcnt, hq, hph⟩ := hr
+  cases a <;> simp only [HOL.step] at hs
+  case deliver =>
+    split at hs
+    case h_2 => cases hs
+    case h_1 f rest hheld hwire =>
+      simp only [Option.some.injEq] at hs; subst hs
+      cases hc : q.cur <;> simp only [HolPhase, hc] at hph
+      · -- none: the next id frame
+        obtain ⟨h1, _, h3, h4⟩ := hph
+        cases ht : q.todo with
+        | zero => rw [ht] at h3; simp [seqFrom, hwire] at h3
+        | succ t =>
+          rw [ht, hwire] at h3
+          simp only [seqFrom, List.cons.injEq] at h3
+          obtain ⟨rfl, rfl⟩ := h3
+          refine ⟨.deliverId, { q with cur := .idHeld, todo := q.todo - 1 }, by simp [SeqHOL.step, hc, ht], ?_⟩
+          refine ⟨c, hlim, hsem, hlen, hpre, hpost, hcnt, by simpa [hc] using hq, ?_⟩
+          have h4' := h4 (by omega)
+          simp only [HolPhase, ht]
+          refine ⟨?_, ?_, ?_, ?_⟩ <;> first | trivial | assumption | omega | (simp; done)
+      · exact absurd hph.2.1 (by simp [hheld])
+      · -- accWire: the request frame
+        obtain ⟨h1, _, h3, h4⟩ := hph
+        rw [hwire] at h3
+        simp only [List.cons.injEq] at h3
+        obtain ⟨rfl, rfl⟩ := h3
+        refine ⟨.deliverReq, { q with cur := .accHeld }, by simp [SeqHOL.step, hc], ?_⟩
+        refine ⟨c, hlim, hsem, hlen, hpre, hpost, hcnt, by simpa [hc] using hq, ?_⟩
+        simp only [HolPhase]
+        refine ⟨?_, ?_, ?_, ?_⟩ <;> first | trivial | assumption | omega | (simp; done)
+      · exact absurd hph.2.1 (by simp [hheld])
+      · obtain ⟨h1, _, h3, h4⟩ := hph
+        rw [hwire] at h3
+        simp only [List.cons.injEq] at h3
+        obtain ⟨rfl, rfl⟩ := h3
+        refine ⟨.deliverReq, { q with cur := .waitHeld }, by simp [SeqHOL.step, hc], ?_⟩
+        refine ⟨c, hlim, hsem, hlen, hpre, hpost, hcnt, by simpa [hc] using hq, ?_⟩
+        simp only [HolPhase]
+        refine ⟨?_, ?_, ?_, ?_⟩ <;> first | trivial | assumption | omega | (simp; done)
+      · exact absurd hph.2.1 (by simp [hheld])
+  case acceptID k =>
+    split at hs
+    case isFalse => cases hs
+    case isTrue hg =>
+      obtain ⟨hheld, hk, _⟩ := hg
+      simp only [Option.some.injEq] at hs; subst hs
+      cases hc : q.cur <;> simp only [HolPhase, hc] at hph
+      case idHeld =>
+        -- k = c
+        obtain ⟨h1, h2, h3, h4⟩ := hph
+        have hkc : k = c := by rw [hheld] at h2; simpa using h2
+        subst hkc
+        refine ⟨.acceptID, { q with cur := .accWire }, by simp [SeqHOL.step, hc], ?_⟩
+        refine ⟨k, hlim, hsem, by simpa using hlen, ?_, ?_, ?_, by simpa [hc] using hq, ?_⟩
+        · intro j hj; simp only; rw [rpc_get_set _ _ _ _ (by omega)]; exact hpre j hj
+        · intro j hj hjn; simp only; rw [rpc_get_set _ _ _ _ (by omega)]; exact hpost j hj hjn
+        · have := rpc_count_set .running h.st k .fresh .accepted hk
+          simp at this; simpa using this.trans hcnt
+        · simp only [HolPhase]
+          refine ⟨?_, ?_, ?_, ?_⟩ <;> first | trivial | assumption | omega | exact rpc_get_set_self _ _ _ _ hk
+      all_goals (exfalso; have h2 := hph.2.1; rw [hheld] at h2; cases h2)
+  case take k =>
+    split at hs
+    case isFalse => cases hs
+    case isTrue hg =>
+      obtain ⟨hk, hfree⟩ := hg
+      simp only [Option.some.injEq] at hs; subst hs
+      -- the accepted stream is the one in transit
+      have hkc : k = c := by
+        rcases Nat.lt_trichotomy k c with hlt | heq | hgt
+        · rcases hpre k hlt with h' | h' <;> rw [h'] at hk <;> cases hk
+        · exact heq
+        · have hkn := rpc_lt_of_get hk
+          rw [hpost k hgt (by omega)] at hk; cases hk
+      subst hkc
+      cases hc : q.cur <;> simp only [HolPhase, hc] at hph
+      · obtain ⟨_, _, _, h4⟩ := hph
+        rw [h4 (by have := rpc_lt_of_get hk; omega)] at hk; cases hk
+      · rw [hph.2.2.2] at hk; cases hk
+      · obtain ⟨h1, h2, h3, h4⟩ := hph
+        refine ⟨.take, { q with cur := .waitWire, sem := q.sem + 1 }, by
+          simp [SeqHOL.step, hc]; omega, ?_⟩
+        refine ⟨k, hlim, by simp only; omega, by simpa using hlen, ?_, ?_, ?_, by simp [hc] at hq ⊢; omega, ?_⟩
+        · intro j hj; simp only; rw [rpc_get_set _ _ _ _ (by omega)]; exact hpre j hj
+        · intro j hj hjn; simp only; rw [rpc_get_set _ _ _ _ (by omega)]; exact hpost j hj hjn
+        · have := rpc_count_set .running h.st k .accepted .waitingReq hk
+          simp at this; simpa using this.trans hcnt
+        · simp only [HolPhase]
+          refine ⟨?_, ?_, ?_, ?_⟩ <;> first | trivial | assumption | omega | exact rpc_get_set_self _ _ _ _ hk
+      · obtain ⟨h1, h2, h3, h4⟩ := hph
+        refine ⟨.take, { q with cur := .waitHeld, sem := q.sem + 1 }, by
+          simp [SeqHOL.step, hc]; omega, ?_⟩
+        refine ⟨k, hlim, by simp only; omega, by simpa using hlen, ?_, ?_, ?_, by simp [hc] at hq ⊢; omega, ?_⟩
+        · intro j hj; simp only; rw [rpc_get_set _ _ _ _ (by omega)]; exact hpre j hj
+        · intro j hj hjn; simp only; rw [rpc_get_set _ _ _ _ (by omega)]; exact hpost j hj hjn
+        · have := rpc_count_set .running h.st k .accepted .waitingReq hk
+          simp at this; simpa using this.trans hcnt
+        · simp only [HolPhase]
+          refine ⟨?_, ?_, ?_, ?_⟩ <;> first | trivial | assumption | omega | exact rpc_get_set_self _ _ _ _ hk
+      · rw [hph.2.2.2] at hk; cases hk
+      · rw [hph.2.2.2] at hk; cases hk
+  case readReq k =>
+    split at hs
+    case isFalse => cases hs
+    case isTrue hg =>
+      obtain ⟨hheld, hk⟩ := hg
+      simp only [Option.some.injEq] at hs; subst hs
+      cases hc : q.cur <;> simp only [HolPhase, hc] at hph
+      case waitHeld =>
+        obtain ⟨h1, h2, h3, h4⟩ := hph
+        have hkc : k = c := by rw [hheld] at h2; simpa using h2
+        subst hkc
+        refine ⟨.readReq, { q with cur := .none, running := q.running + 1 }, by simp [SeqHOL.step, hc], ?_⟩
+        refine ⟨k + 1, hlim, hsem, by simpa using hlen, ?_, ?_, ?_, by simp [hc] at hq ⊢; omega, ?_⟩
+        · intro j hj
+          simp only
+          by_cases hjk : j = k
+          · subst hjk; left; exact rpc_get_set_self _ _ _ _ hk
+          · rw [rpc_get_set _ _ _ _ (by omega)]; exact hpre j (by omega)
+        · intro j hj hjn; simp only; rw [rpc_get_set _ _ _ _ (by omega)]; exact hpost j (by omega) hjn
+        · have := rpc_count_set .running h.st k .waitingReq .running hk
+          simp at this; simp only; omega
+        · simp only [HolPhase]
+          refine ⟨by omega, trivial, h3, ?_⟩
+          intro hlt; rw [rpc_get_set _ _ _ _ (by omega)]; exact hpost (k + 1) (by omega) hlt
+      case accHeld =>
+        exfalso
+        have h2 := hph.2.1; rw [hheld] at h2
+        have hkc : k = c := by simpa using h2
+        subst hkc
+        rw [hph.2.2.2] at hk; cases hk
+      all_goals (exfalso; have h2 := hph.2.1; rw [hheld] at h2; cases h2)
+  case finish k =>
+    split at hs
+    case isFalse => cases hs
+    case isTrue hk =>
+      simp only [Option.some.injEq] at hs; subst hs
+      have hpos := rpc_count_pos_of_get .running h.st k hk
+      have hklt : k < c := by
+        rcases Nat.lt_trichotomy k c with hlt | heq | hgt
+        · exact hlt
+        · exfalso; subst heq
+          cases hc : q.cur <;> simp only [HolPhase, hc] at hph
+          · have := hph.2.2.2 (by have := rpc_lt_of_get hk; omega); rw [this] at hk; cases hk
+          all_goals (rw [hph.2.2.2] at hk; cases hk)
+        · exfalso
+          have hkn := rpc_lt_of_get hk
+          rw [hpost k hgt (by omega)] at hk; cases hk
+      refine ⟨.finish, { q with running := q.running - 1, doneN := q.doneN + 1, sem := q.sem - 1 }, by
+        simp [SeqHOL.step]; omega, ?_⟩
+      refine ⟨c, hlim, by simp only; omega, by simpa using hlen, ?_, ?_, ?_, ?_, ?_⟩
+      · intro j hj
+        simp only
+        by_cases hjk : j = k
+        · subst hjk; right; exact rpc_get_set_self _ _ _ _ hk
+        · rw [rpc_get_set _ _ _ _ (by omega)]; exact hpre j hj
+      · intro j hj hjn; simp only; rw [rpc_get_set _ _ _ _ (by omega)]; exact hpost j hj hjn
+      · have := rpc_count_set .running h.st k .running .done hk
+        simp at this; simp only; omega
+      · simp only; split at hq <;> simp_all <;> omega
+      · cases hc : q.cur <;> simp only [HolPhase, hc] at hph ⊢
+        · refine ⟨hph.1, hph.2.1, hph.2.2.1, ?_⟩
+          intro hlt; rw [rpc_get_set _ _ _ _ (by omega)]; exact hph.2.2.2 hlt
+        all_goals
+          refine ⟨hph.1, hph.2.1, hph.2.2.1, ?_⟩
+          rw [rpc_get_set _ _ _ _ (by omega)]; exact hph.2.2.2
+
+/-- every state `HOL` reaches on the sequential wire is related to a state of `SeqHOL` -/
+theorem holRel_reach (limit n : Nat) (tr : List HOLStep) (h : HOL)
+    (hrun : holSys.run (HOL.init limit (seqWire n) n) tr = some h) : ∃ q, HolRel n h q :=
+  Sys.run_inv holSys (fun h => ∃ q, HolRel n h q)
+    (fun h a h' ⟨q, hr⟩ hs => by
+      obtain ⟨_, q', _, hr'⟩ := hol_sim n h h' q a hr hs
+      exact ⟨q', hr'⟩)
+    tr _ h ⟨_, holRel_init limit n⟩ hrun
+
+/-- progress of `SeqHOL` from its invariant alone -/
+theorem SeqHOL.progress_of_inv (q : SeqHOL) (hl : 0 < q.limit)
+    (hsem : q.sem = q.running + (if q.cur = .waitWire ∨ q.cur = .waitHeld then 1 else 0))
+    (hf : q.final = false) : q.canStep = true := by
+  simp only [SeqHOL.final, Bool.and_eq_false_iff, decide_eq_false_iff_not] at hf
+  simp only [SeqHOL.canStep, List.any_cons, List.any_nil, Bool.or_false, Bool.or_eq_true,
+    Option.isSome_iff_ne_none, ne_eq]
+  cases hc : q.cur <;> simp [hc, SeqHOL.step] at hsem hf ⊢
+  · by_cases ht : 0 < q.todo
+    · left; omega
+    · right; omega
+  all_goals
+    by_cases hfree : q.sem < q.limit
+    · simp [hfree]
+    · right; omega
+
+/-- a final `SeqHOL` state is the image of final `HOL` states only -/
+theorem hol_final_of_seq (n : Nat) (h : HOL) (q : SeqHOL) (hr : HolRel n h q) (hf : q.final = true) :
+    h.final = true := by
+  obtain ⟨c, _, _, hlen, hpre, _, hcnt, _, hph⟩ := hr
+  simp only [SeqHOL.final, Bool.and_eq_true, decide_eq_true_eq] at hf
+  obtain ⟨⟨ht, hc⟩, hrun⟩ := hf
+  simp only [HolPhase, hc] at hph
+  have hcn : c = n := by omega
+  simp only [HOL.final, List.all_eq_true, decide_eq_true_eq]
+  intro x hx
+  obtain ⟨i, hi, he⟩ := List.getElem_of_mem hx
+  have hget : h.st[i]? = some x := by rw [List.getElem?_eq_getElem hi, he]
+  rcases hpre i (by omega) with h' | h'
+  · exfalso
+    have := rpc_count_pos_of_get .running h.st i h'
+    omega
+  · rw [h'] at hget; cases hget; rfl
+
+/-- whatever `SeqHOL` can do, `HOL` can do (the converse direction of the simulation, for
+enabledness): so a stuck `HOL` state on the sequential wire would be a stuck `SeqHOL` state -/
+theorem hol_enabled_of_seq (n : Nat) (h : HOL) (q : SeqHOL) (hr : HolRel n h q) (he : q.canStep = true) :
+    h.canStep = true := by
+  obtain ⟨c, hlim, hsem, hlen, hpre, hpost, hcnt, hq, hph⟩ := hr
+  have idx : ∀ (k : Nat) (a : HOLStep), k < h.st.length →
+      (a = .acceptID k ∨ a = .take k ∨ a = .readReq k ∨ a = .finish k) → (h.step a).isSome = true →
+      h.canStep = true := by
+    intro k a hk ha hen
+    simp only [HOL.canStep, Bool.or_eq_true, List.any_eq_true, List.mem_range]
+    right
+    refine ⟨k, hk, ?_⟩
+    rcases ha with rfl | rfl | rfl | rfl <;> simp [hen]
+  simp only [SeqHOL.canStep, List.any_cons, List.any_nil, Bool.or_false, Bool.or_eq_true] at he
+  cases hc : q.cur <;> simp only [HolPhase, hc] at hph <;> simp [hc, SeqHOL.step] at he
+  · -- nothing in transit
+    rcases he with ht | hrun
+    · -- the next id frame can be delivered
+      obtain ⟨_, h2, h3, _⟩ := hph
+      cases htd : q.todo with
+      | zero => omega
+      | succ t =>
+        rw [htd] at h3
+        simp [HOL.canStep, HOL.step, h2, h3, seqFrom]
+    · obtain ⟨k, hk⟩ := rpc_get_of_count_pos .running h.st (by omega)
+      exact idx k (.finish k) (rpc_lt_of_get hk) (by simp) (by simp [HOL.step, hk])
+  · -- id held: runPeer accepts it
+    obtain ⟨h1, h2, h3, h4⟩ := hph
+    refine idx c (.acceptID c) (rpc_lt_of_get h4) (by simp) ?_
+    have hall : (h.st.all fun x => decide (x ≠ RpcPc.accepted)) = true := by
+      simp only [List.all_eq_true, decide_eq_true_eq]
+      intro x hx
+      obtain ⟨i, hi, hxe⟩ := List.getElem_of_mem hx
+      have hget : h.st[i]? = some x := by rw [List.getElem?_eq_getElem hi, hxe]
+      rcases Nat.lt_trichotomy i c with hlt | heq | hgt
+      · rcases hpre i hlt with h' | h' <;> rw [h'] at hget <;> cases hget <;> simp
+      · subst heq; rw [h4] at hget; cases hget; simp
+      · rw [hpost i hgt (by omega)] at hget; cases hget; simp
+    simp only [HOL.step]
+    rw [if_pos ⟨h2, h4, hall⟩]; rfl
+  · -- accepted, request on the wire
+    simp [HOL.canStep, HOL.step, hph.2.1, hph.2.2.1]
+  · -- accepted, request held: a slot is free or a handler runs
+    rcases he with hfree | hrun
+    · exact idx c (.take c) (rpc_lt_of_get hph.2.2.2) (by simp) (by simp [HOL.step, hph.2.2.2]; omega)
+    · obtain ⟨k, hk⟩ := rpc_get_of_count_pos .running h.st (by omega)
+      exact idx k (.finish k) (rpc_lt_of_get hk) (by simp) (by simp [HOL.step, hk])
+  · simp [HOL.canStep, HOL.step, hph.2.1, hph.2.2.1]
+  · exact idx c (.readReq c) (rpc_lt_of_get hph.2.2.2) (by simp) (by simp [HOL.step, hph.2.1, hph.2.2.2])
+
 end Verif.Conc
